@@ -72,6 +72,10 @@ pub fn segments() -> Vec<Vec<String>> {
         vec!["$ cmd", "``two"],
         vec!["[7]"],
         vec!["$ cmd", "out", "[0]"],
+        // multi-line command with an empty continuation line (e.g. a blank line inside a here-document)
+        vec!["$ cat <<EOF", "> ", "> EOF", "out"],
+        // a command line without any command text
+        vec!["$ ", "out"],
     ];
     for b in &bodies {
         for ticks in [3usize, 4] {
@@ -326,7 +330,7 @@ impl Engine for VcMd {
             Tier::Thorough => (5, 3),
         };
         format!(
-            "(1) all line sequences of length <= {d} over {} line kinds (LF; CRLF and missing final newline below the maximum length); (2) all sequences of <= {s} segments over {} segments (prose runs, front-matter, verbatim blocks, scrut blocks of 9 body shapes x 3/4-tick fences x with/without config) with every line-prefix truncation, LF and CRLF",
+            "(1) all line sequences of length <= {d} over {} line kinds (LF; CRLF and missing final newline below the maximum length); (2) all sequences of <= {s} segments over {} segments (prose runs, front-matter, verbatim blocks, scrut blocks of 11 body shapes x 3/4-tick fences x with/without config) with every line-prefix truncation, LF and CRLF",
             LINE_KINDS.len(),
             segments().len()
         )
